@@ -69,6 +69,15 @@ def analyse(ctx, replace=None, only=None):
         R.require(n >= 1, "%s: no memory operation found" % name)
 
 
+def decl_init_of(f, name):
+    for e in f.all_events():
+        if e.kind == "decl":
+            for v in e.node["vars"]:
+                if v["n"] == name and v.get("init") is not None:
+                    return v["init"]
+    return None
+
+
 class _NoHandlesHooks:
     """entry state: the queue's handle array is all-zero - what aws_priority_queue_init_* leave until the first push with a
     handle (and what a queue used without handles keeps for life)"""
@@ -171,7 +180,7 @@ def queue_rules(R, P):
                 if init is not None and init["k"] == "un" and init["op"] == "addr":
                     x = f.d(init["a"][0])
                     if x["k"] == "index" and "backpointers.data" in f.show(x["a"][0]):
-                        slots[v["n"]] = f.show(x["a"][1])
+                        slots[f.canon(v["n"])] = f.show(x["a"][1])
     R.check(sorted(slots.values()) == ["a", "b"], "LOCKSTEP", "swap:slot-pointers", "s_swap()", "slot pointers address backpointers[a] and backpointers[b] (%s)" % slots,
             "the handle slots addressed are %s, expected indices a and b" % slots)
     stores = [e for e in f.field_accesses(rec="aws_priority_queue_node", field="current_index", modes=("w",))]
@@ -297,23 +306,52 @@ def queue_rules(R, P):
     sift = f.calls("s_sift_either")
     R.require(len(swp) == 1 and len(popc) == 1 and len(popb) == 1 and len(getb) == 1 and len(inval) == 1 and len(sift) == 1 and len(geti) == 1, "s_remove_node: step missing")
     if swp and popc and popb and getb and inval and sift and geti:
-        R.check([argstr(f, swp[0].node, i, addr=False) for i in (1, 2)] == ["item_index", "swap_with"], "INVALIDATE", "remove:swap-to-last", where(f, swp[0]), "removed element swapped with the last slot")
-        swd = [e for e in f.all_events() if e.kind == "decl" and any(v["n"] == "swap_with" for v in e.node["vars"])]
-        R.check(len(swd) == 1 and "aws_array_list_length" in f.show(swd[0].node) and "- 1" in f.show(swd[0].node), "INVALIDATE", "remove:swap_with-is-last", where(f, swd[0]) if swd else "s_remove_node", "swap_with = length - 1")
-        R.check(argstr(f, geti[0].node, 2, addr=False) == "item_index" and ev_dominates(f, geti[0], swp[0], dom) is not None and geti[0] not in RU.reach_from(f, swp[0]), "INVALIDATE", "remove:copy-out-before-swap", where(f, geti[0]),
+        # roles, not spellings: the removed slot is the index parameter; `last` is whatever the exchange's other operand is,
+        # and it must be length(container) - 1 (seen through temporaries)
+        idx = f.params[2]["n"]
+        A1, A2 = (RU.uncast(f, RU.arg(f, swp[0].node, i)) for i in (1, 2))
+        lastn = A2 if f.show(A1) == idx else A1
+        R.check(f.show(A1) == idx or f.show(A2) == idx, "INVALIDATE", "remove:swap-to-last", where(f, swp[0]), "removed element swapped with the last slot")
+
+        def is_last(n):
+            n = RU.uncast(f, n)
+            for _ in range(4):
+                if n is not None and n["k"] == "var" and n.get("sc") == "local":
+                    init = decl_init_of(f, n["n"])
+                    if init is None:
+                        return False
+                    n = RU.uncast(f, init)
+                else:
+                    break
+            if n is None or n["k"] != "bin" or n["op"] != "-" or f.is_const(n["a"][1]) != 1:
+                return False
+            l = RU.uncast(f, n["a"][0])
+            return l is not None and ((l["k"] == "call" and l.get("callee") == "aws_array_list_length" and argstr(f, l, 0) == "queue->container") or f.show(l) == "queue->container.length")
+        R.check(is_last(lastn), "INVALIDATE", "remove:swap_with-is-last", where(f, swp[0]), "the other slot of the exchange is length - 1", "the removed element is exchanged with slot %s, which is not length(container) - 1" % f.show(lastn))
+        R.check(argstr(f, geti[0].node, 2, addr=False) == idx and ev_dominates(f, geti[0], swp[0], dom) is not None and geti[0] not in RU.reach_from(f, swp[0]), "INVALIDATE", "remove:copy-out-before-swap", where(f, geti[0]),
                 "the removed element is copied out before it is moved")
-        chain = [("swap", swp), ("pop-element", popc), ("read-last-handle", getb), ("mark-not-in-queue", inval), ("pop-handle", popb), ("re-sift", sift)]
-        for (an, A), (bn, B) in zip(chain, chain[1:]):
+        # the steps that depend on each other (the element pop and the handle steps touch different arrays and may be in either order)
+        order = [("swap", swp, "pop-element", popc), ("swap", swp, "read-last-handle", getb), ("read-last-handle", getb, "mark-not-in-queue", inval), ("mark-not-in-queue", inval, "pop-handle", popb),
+                 ("pop-element", popc, "re-sift", sift), ("pop-handle", popb, "re-sift", sift)]
+        for an, A, bn, B in order:
             okc = all((b_ in RU.reach_from(f, a_)) and (a_ not in RU.reach_from(f, b_)) for a_ in A for b_ in B)
-            R.check(okc, "INVALIDATE", "remove:%s<%s" % (an, bn), where(f, B[0]), "%s precedes %s" % (an, bn), "%s can happen before %s: the handle invalidated is not the departing element's" % (bn, an))
-        R.check(argstr(f, getb[0].node, 2, addr=False) == "swap_with", "INVALIDATE", "remove:reads-handle-of-last-slot", where(f, getb[0]), "the handle read is the one of the (former) last slot, where the removed element now is",
+            R.check(okc, "INVALIDATE", "remove:%s<%s" % (an, bn), where(f, B[0]), "%s precedes %s" % (an, bn), "%s can happen before %s: the handle invalidated is not the departing element's / the heap is re-ordered with the departing element still in it" % (bn, an))
+        R.check(is_last(RU.arg(f, getb[0].node, 2)), "INVALIDATE", "remove:reads-handle-of-last-slot", where(f, getb[0]), "the handle read is the one of the (former) last slot, where the removed element now is",
                 "the handle invalidated is read from slot %s, not from the last slot" % argstr(f, getb[0].node, 2, addr=False))
         a_ = _assignment_of(f, inval[0])
         R.check(a_ is not None and f.is_const(a_["a"][1]) == SIZE_MAX and f.show(inval[0].node["a"][0]) == argstr(f, getb[0].node, 1), "INVALIDATE", "remove:marks-SIZE_MAX", where(f, inval[0]), "departing handle marked SIZE_MAX")
-        gs = [(f.show(RU.uncast(f, g[0])), g[1], f.show(RU.uncast(f, g[2])) if g[2] is not None else None) for g in [RU.cmp_norm(f, c, p) for c, p, b in RU.guards(f, sift[0], dom)] if g]
-        R.check(("item_index", "!=", "swap_with") in gs and argstr(f, sift[0].node, 1, addr=False) == "item_index", "HEAP-SHAPE", "remove:re-sift-moved-element", where(f, sift[0]), "the element moved into the hole is re-sifted")
-        gs2 = [(f.show(RU.uncast(f, g[0])), g[1], f.show(RU.uncast(f, g[2])) if g[2] is not None else None) for g in [RU.cmp_norm(f, c, p) for c, p, b in RU.guards(f, swp[0], dom)] if g]
-        R.check(("item_index", "!=", "swap_with") in gs2, "INVALIDATE", "remove:no-self-swap", where(f, swp[0]), "swap skipped when the element already is last")
+
+        def differs(ev):
+            """ev is reached only when the removed slot is not the last one"""
+            for c_, p_, b_ in RU.guards(f, ev, dom):
+                g_ = RU.cmp_norm(f, c_, p_)
+                if g_ and g_[1] == "!=" and g_[2] is not None:
+                    l_, r_ = RU.uncast(f, g_[0]), RU.uncast(f, g_[2])
+                    if (f.show(l_) == idx and is_last(r_)) or (f.show(r_) == idx and is_last(l_)):
+                        return True
+            return False
+        R.check(differs(sift[0]) and argstr(f, sift[0].node, 1, addr=False) == idx, "HEAP-SHAPE", "remove:re-sift-moved-element", where(f, sift[0]), "the element moved into the hole is re-sifted")
+        R.check(differs(swp[0]), "INVALIDATE", "remove:no-self-swap", where(f, swp[0]), "swap skipped when the element already is last")
 
     # clear / node_init / is_in_queue
     f = fns["aws_priority_queue_clear"]
@@ -377,8 +415,12 @@ def queue_rules(R, P):
             ok = False
             for b in f.blocks.values():
                 c = f.d(b.cond) if b.cond is not None else None
-                if c is not None and c["k"] == "bin" and c["op"] == ">" and f.d(c["a"][0]) is e.node and f.is_const(c["a"][1]) == 0:
-                    ok = True
+                g_ = RU.cmp_norm(f, b.cond, True) if b.cond is not None else None
+                if g_ and g_[2] is not None and RU.uncast(f, g_[0]) is e.node and g_[1] in (">", "<=") and f.is_const(RU.uncast(f, g_[2])) == 0:
+                    ok = True  # `pred > 0` or its exact negation `pred <= 0`: the same partition
+            if f is up:
+                ok = ok and any((lambda g_: g_ and g_[2] is not None and RU.uncast(f, g_[0]) is e.node and g_[1] == ">" and f.is_const(RU.uncast(f, g_[2])) == 0)(RU.cmp_norm(f, c_, p_))
+                                for s_ in f.calls("s_swap") for c_, p_, b_ in RU.guards(f, s_))
             R.check(ok, "HEAP-SHAPE", "%s:swap-when-pred>0" % f.name, where(f, e), "elements are exchanged exactly when pred(upper, lower) > 0",
                     "the comparator result is not tested with `> 0` here: sift-up and sift-down would disagree on the order")
     e_ = fns["s_sift_either"]
@@ -460,20 +502,34 @@ def heap_index_formulas(R, P, dn, up):
             l, rt = st.env.get("v:left"), st.env.get("v:right")
             ok = r is not None and l is not None and rt is not None and l == r * 2 + 1 and rt == r * 2 + 2
             R.check(ok, "HEAP-SHAPE", "children-of", "s_sift_down()", "children of slot i are 2i+1 and 2i+2", "the child indices of slot i are computed as %r and %r" % (l, rt))
-    for nm, mk in (("odd-child", lambda r: r * 2 + 1), ("even-child", lambda r: r * 2 + 2)):
-        num = Num(up, P, _Fix("index", mk))
-        decl = [e for b in up.blocks.values() for e in b.elems if (e["k"] == "decl" and any(v["n"] == "parent" for v in e["vars"]))]
-        R.require(len(decl) == 1, "s_sift_up: declaration of `parent` not found")
-        n = 0
-        if decl:
-            sts = num.states_at(set(), after_ids={decl[0]["id"]})[("after", decl[0]["id"])]
-            for st in sts:
-                r = _P.atom(st.notes["r"])
-                par, idx = st.env.get("v:parent"), st.env.get("v:index")
-                if par is None or idx is None or idx != mk(r):
-                    continue
-                n += 1
-                ok = entails(st, par - r) and entails(st, r - par)
-                R.check(ok, "HEAP-SHAPE", "parent-of:" + nm, "s_sift_up()", "parent(%s) = r" % ("2r+1" if "odd" in nm else "2r+2"),
-                        "the parent index of slot %s is computed as %r, not r: sift-up compares with the wrong element" % ("2r+1" if "odd" in nm else "2r+2", par))
-        R.require(n >= 1, "s_sift_up: could not evaluate the parent computation (%s)" % nm)
+    # parent: the variable s_sift_up exchanges the slot `index` with is computed - wherever and however often - by expressions
+    # that give r for index = 2r+1 and for index = 2r+2 (NUM on every defining expression, both parities, all r < 2^61)
+    sw_ = up.calls("s_swap")
+    R.require(len(sw_) == 1, "s_sift_up: expected one exchange")
+    if sw_:
+        pidx = up.params[1]["n"]
+        a1, a2 = RU.uncast(up, RU.arg(up, sw_[0].node, 1)), RU.uncast(up, RU.arg(up, sw_[0].node, 2))
+        pv = a2 if up.show(a1) == pidx else a1
+        defs = []
+        if pv is not None and pv["k"] == "var":
+            for b in up.blocks.values():
+                for e in b.elems:
+                    if e["k"] == "decl":
+                        defs += [v["init"] for v in e["vars"] if v["n"] == pv["n"] and v.get("init") is not None]
+                    if e["k"] == "bin" and e["op"] == "=" and (up.d(e["a"][0]) or {}).get("k") == "var" and up.d(e["a"][0])["n"] == pv["n"]:
+                        defs.append(e["a"][1])
+        R.require(len(defs) >= 1, "s_sift_up: no computation of the parent index found (exchange partner %s)" % (up.show(pv) if pv else None))
+        for nm, mk in (("odd-child", lambda r: r * 2 + 1), ("even-child", lambda r: r * 2 + 2)):
+            num = Num(up, P, _Fix(pidx, mk))
+            first = [e for b in sorted(up.blocks.values(), key=lambda b_: -b_.id) for e in b.elems][:1]
+            sts = num.states_at({first[0]["id"]}).get(first[0]["id"], []) if first else []
+            R.require(len(sts) >= 1, "s_sift_up: no entry state")
+            for st0 in sts[:1]:
+                r = _P.atom(st0.notes["r"])
+                for dn_ in defs:
+                    st = st0.copy()
+                    st.env["v:" + pidx] = mk(r)
+                    par = num.val(up.d(dn_), st)
+                    ok = par is not None and entails(st, par - r) and entails(st, r - par)
+                    R.check(ok, "HEAP-SHAPE", "parent-of:%s:line%d" % (nm, (up.d(dn_) or {}).get("loc", [0])[0]), "s_sift_up()", "parent(%s) = r" % ("2r+1" if "odd" in nm else "2r+2"),
+                            "the parent index of slot %s is computed as %r, not r: sift-up compares with the wrong element" % ("2r+1" if "odd" in nm else "2r+2", par))
